@@ -19,6 +19,10 @@ SETS = {
         dict(D=2, Ns=[3], E=2, wl=0, Ks=[0], fl=0, forms=["nan"], vals=["pow2"], wforms=False),
         dict(D=3, Ns=[1], E=2, wl=0, Ks=[0], fl=0, forms=["nan"], vals=["pow2"], wforms=False),
         dict(D=3, Ns=[2], E=2, wl=0, Ks=[], fl=0, forms=["nan"], vals=["pow2"], wforms=False),
+        # dimensions with extra axes (2-D / 3-D indexes are re-encoded column by column)
+        dict(D=1, Ns=[1, 2], E=2, wl=1, Ks=[0], fl=1, forms=["nan"], vals=["pow2"], wforms=False, extras=[[2]]),
+        dict(D=1, Ns=[2], E=2, wl=0, Ks=[0], fl=0, forms=["nan"], vals=["pow2"], wforms=False, extras=[[3]]),
+        dict(D=2, Ns=[1, 2], E=2, wl=0, Ks=[0], fl=0, forms=["nan"], vals=["pow2"], wforms=False, extras=[[2], []]),
     ],
     "thorough": [
         dict(D=1, Ns=[0, 1, 2, 3], E=2, wl=2, Ks=[0, 2], fl=2, forms=["nan", "pair-huge", "int"], vals=["pow2", "mixed"], wforms=True),
@@ -27,13 +31,18 @@ SETS = {
         dict(D=2, Ns=[3], E=2, wl=1, Ks=[0, 2], fl=1, forms=["nan"], vals=["pow2"], wforms=False),
         dict(D=3, Ns=[1, 2], E=2, wl=1, Ks=[0], fl=1, forms=["nan"], vals=["pow2"], wforms=False),
         dict(D=3, Ns=[3], E=2, wl=0, Ks=[0], fl=1, forms=["nan"], vals=["pow2"], wforms=False),
+        dict(D=1, Ns=[1, 2, 3], E=2, wl=1, Ks=[0, 2], fl=1, forms=["nan"], vals=["pow2"], wforms=False, extras=[[2]]),
+        dict(D=1, Ns=[1, 2], E=2, wl=1, Ks=[0], fl=1, forms=["nan"], vals=["pow2"], wforms=False, extras=[[3]]),
+        dict(D=2, Ns=[1, 2], E=2, wl=1, Ks=[0], fl=1, forms=["nan"], vals=["pow2"], wforms=False, extras=[[2], []]),
+        dict(D=2, Ns=[1, 2], E=2, wl=0, Ks=[0], fl=0, forms=["nan"], vals=["pow2"], wforms=False, extras=[[], [2]]),
+        dict(D=2, Ns=[1], E=2, wl=0, Ks=[0], fl=0, forms=["nan"], vals=["pow2"], wforms=False, extras=[[2], [2]]),
     ],
 }
 
 
 def describe(tier):
     return {
-        "rule": "for every data vector per dimension (rows N, E categories) and every call of C03's sub-space (aggregate x policy x weights x fact): the base cube uses "
+        "rule": "for every data array per dimension (rows N, E categories; one-axis dimensions and dimensions with one extra axis (N,2), (N,3)) and every call of C03's sub-space (aggregate x policy x weights x fact): the base cube uses "
         "harness-built dimensions with common 0 and explicit shape E+2; then for EVERY combination (v_1..v_D) in (0..E+1)^D each dimension is replaced by a rebuilt "
         "copy re-encoded with the library's shift_common(v_d) (v = E, E+1 never occur in the data) and the result must equal the base (missing cells exactly, "
         "values within 1e-9 x grand total); then every dimension is re-normalised with shift_common() and compared again. shift_common must leave the dense "
@@ -41,7 +50,8 @@ def describe(tier):
         "the base encoding. Distinct = distinct (data, call, combination).",
         "bounds": {"sets": SETS[tier]},
         "exhaustive": True,
-        "assumptions": ["the explicit cube shape contains every common value used (documented precondition of an explicit shape)"],
+        "assumptions": ["the explicit cube shape contains every common value used (documented precondition of an explicit shape)",
+                        "three-axis indexes are not re-encoded: shift_common only handles 1-D and 2-D indexes, and the operation alphabet of C06 scopes 3-D indexes to slicing and slice iteration"],
     }
 
 
@@ -55,12 +65,20 @@ def calls_for(N, cfg):
         yield from c03.calls(N, cfg)
 
 
+def data_space(cfg, N):
+    """Per-dimension list of all dense arrays (shape (N,) + extra extents) over 0..E-1."""
+    extras = cfg.get("extras") or [[]] * cfg["D"]
+    return [list(M.all_arrays((N,) + tuple(ex), range(cfg["E"]))) for ex in extras]
+
+
 def blocks(tier):
     out = []
     for si, cfg in enumerate(SETS[tier]):
         for N in cfg["Ns"]:
             D, E = cfg["D"], cfg["E"]
-            ndata = (E ** N) ** D
+            ndata = 1
+            for sp in data_space(cfg, N):
+                ndata *= len(sp)
             ncalls = sum(1 for _ in calls_for(N, cfg))
             per = max(1, 3000 // max(1, ncalls * (2 * (E + 2) ** D + 1)))
             for a in range(0, ndata, per):
@@ -86,6 +104,7 @@ def check_data(datas, E, N, cfg, acc, only_call=None, only_combo=None):
 
     D = len(datas)
     denses = [numpy.array(t, dtype=numpy.int64) for t in datas]
+    datas = [d.tolist() for d in denses]
     shape = (E + 2,) * D
     base_dims = [M.build_index(d, 0) for d in denses]
     combos = list(itertools.product(range(E + 2), repeat=D)) if only_combo is None else [tuple(only_combo)]
@@ -114,7 +133,7 @@ def check_data(datas, E, N, cfg, acc, only_call=None, only_combo=None):
             renorm.append(ix2)
         if len(dims) == D:
             enc[combo] = (dims, renorm)
-    nt_cube = any(len(set(t)) > 1 for t in datas)
+    nt_cube = any(len(set(d.reshape(-1).tolist())) > 1 for d in denses)
     for call in (calls_for(N, cfg) if only_call is None else [only_call]):
         agg, ignore, ws, fs = call
         f_arg, x, valid, K, w_arg, w, wok = c03.realise(N, ws, fs)
@@ -142,14 +161,13 @@ def check_data(datas, E, N, cfg, acc, only_call=None, only_combo=None):
                 if msg:
                     acc.violation("ccube:%s:%s:differs" % (agg, tag), case, msg)
                 acc.count("reencoded_evals")
-            acc.case((tuple(datas), agg, ignore, ws, fs, combo), nontrivial=nt_cube and any(combo), outcome=(agg, int(base[1].sum()) > 0), sample=lambda: dict(case0, combo=list(combo)))
+            acc.case((tuple(d.tobytes() for d in denses), tuple(d.shape for d in denses), agg, ignore, ws, fs, combo), nontrivial=nt_cube and any(combo), outcome=(agg, int(base[1].sum()) > 0), sample=lambda: dict(case0, combo=list(combo)))
 
 
 def run_block(family, p, acc):
     cfg = SETS[p["tier"]][p["si"]]
     N, D, E = p["N"], cfg["D"], cfg["E"]
-    vecs = list(itertools.product(range(E), repeat=N))
-    for datas in itertools.islice(itertools.product(vecs, repeat=D), p["a0"], p["a1"]):
+    for datas in itertools.islice(itertools.product(*data_space(cfg, N)), p["a0"], p["a1"]):
         check_data(list(datas), E, N, cfg, acc)
 
 
@@ -157,7 +175,7 @@ def replay(case, site=None):
     from ..core import Acc
 
     acc = Acc(ID, [], stop_at_first=False)
-    datas = [tuple(t) for t in case["data"]]
+    datas = [numpy.array(t, dtype=numpy.int64) for t in case["data"]]
     cfg = dict(wl=0, Ks=[0], fl=1, forms=["nan"], vals=["pow2"], wforms=True)
     if "agg" in case:
         call = (case["agg"], case["ignore"], c03._tupleize(case["weights"]), c03._tupleize(case["fact"]) if case["fact"] is not None else None)
